@@ -414,6 +414,77 @@ def const_param(prog, f, idx, pred):
     return "all %d call sites in the workspace pass constants %s" % (len(vals), sorted(set(vals)))
 
 
+
+def _peel_field(d):
+    d = strip(d)
+    if d[0] != "field" or not isinstance(d[2], str) or d[2].isdigit():
+        return None
+    base = d[1]
+    while base[0] in ("ref", "deref"):
+        base = base[1]
+    return (base, d[2]) if base[0] == "param" else None
+
+
+def _agg_sites(prog):
+    if not hasattr(prog, "_agg_sites_cache"):
+        sites, mut = {}, set()
+        for g in prog.fns.values():
+            for ty in g.locals:
+                m = re.match(r"&mut ([A-Za-z_0-9:]+)", str(ty))
+                if m:
+                    mut.add(m.group(1))
+            for b in range(g.n):
+                for st in g.stmts(b):
+                    if st[0] == "a" and st[2][0] == "agg" and st[2][1] == "adt" and len(st[2]) > 5:
+                        sites.setdefault(st[2][2], []).append((g, b, st))
+        prog._agg_sites_cache = (sites, mut)
+    return prog._agg_sites_cache
+
+
+def field_invariant_ge(prog, f, A, B):
+    pa, pb = _peel_field(A), _peel_field(B)
+    if not pa or not pb or pa[0] != pb[0] or pa[1] == pb[1]:
+        return None
+    ty = re.sub(r"^&(mut )?", "", str(f.locals[pa[0][1]]))
+    sites, mut = _agg_sites(prog)
+    if ty in mut or not sites.get(ty):
+        return None
+    F, G = pa[1], pb[1]
+    for g, b, st in sites[ty]:
+        names = st[2][5]
+        if F not in names or G not in names:
+            return None
+        dF = strip(g.desc_op(st[2][4][names.index(F)]))
+        opG = st[2][4][names.index(G)]
+        dG = strip(g.desc_op(opG))
+        if dG == ("const", 0) or implies_ge(cmp_facts(g, b), dF, dG):
+            continue
+        # G assigned on several paths: each value is 0 or `x % F` (which is < F)
+        lg = opG[1][0] if opG[0] in ("cp", "mv") and len(opG[1]) == 1 else None
+        lf_op = st[2][4][names.index(F)]
+        defs = g.defs.get(lg, []) if lg is not None else []
+        # look through one copy
+        if len(defs) == 1 and defs[0][0] == "s" and defs[0][4][0] == "use" and defs[0][4][1][0] in ("cp", "mv") and len(defs[0][4][1][1]) == 1:
+            defs = g.defs.get(defs[0][4][1][1][0], [])
+        good = bool(defs)
+        for df in defs:
+            if df[0] != "s":
+                good = False
+                break
+            d2 = strip(g.desc_rvalue(df[4]))
+            if d2 == ("const", 0):
+                continue
+            if d2[0] == "field" and d2[2] == "0":
+                d2 = d2[1]
+            if d2[0] == "bin" and d2[1] == "Rem" and strip(d2[3]) == dF:
+                continue
+            good = False
+            break
+        if not good:
+            return None
+    return "struct invariant: every construction of %s sets %s to 0, to a value tested <= %s, or to `_ %% %s`; the struct is never borrowed mutably" % (short_path(ty), G, F, F)
+
+
 def discharge(prog, f, b, t, kind, ds):
     A = ds[0]
     B = ds[1] if len(ds) > 1 else None
@@ -496,6 +567,12 @@ def discharge(prog, f, b, t, kind, ds):
                 break
             if good:
                 return "every assignment of the minuend is a constant >= %s or a value tested to be >= %s" % (B[1], B[1])
+        # self.F - self.G under a struct invariant F >= G: every construction of the struct establishes it and the struct is never
+        # borrowed mutably (so the fields keep the values they were built with)
+        if prog is not None:
+            r = field_invariant_ge(prog, f, A, B)
+            if r:
+                return r
         # (a + b) - b  /  a.len() - a.len()
         if A == B:
             return "x - x"
